@@ -20,7 +20,7 @@ NA = {
 }
 
 PENDING = {k: 'applicable to this technique (see DESIGN.md section 3) but its check is not built yet in this revision; not claimed until it is quiet and sensitive'
-           for k in ('C10',)}
+           for k in ()}
 
 CHECKS = {
  'C05': dict(
@@ -104,6 +104,18 @@ CHECKS = {
          'reach the target value (a round-trip defect, C01/C02/C09 territory) is counted as a probe and left out, so decoder defects are not '
          'misattributed. No reference encoder: only history-independence is decided, not X.690 conformance.',
     technique='deterministic simulation, replica convergence: seeded construction histories per replica, invariant = identical canonical bytes, delta-debugged replay'),
+ 'C10': dict(
+    engine='stream-world', category='exploration', design_ref='DESIGN.md section 3 (C10)',
+    text='Same fault model as C08 (1-3 stored-byte corruptions of valid encodings, encodings of values of a neighbouring type with constraints '
+         'dropped, seeded arrival schedules), restricted to schema-guided decoding over a universe extended with value ranges, sizes (also on '
+         'SEQUENCE OF/SET OF) and permitted alphabets. Whenever a decoder RETURNS a value: it must conform to an independent evaluation of the '
+         'descriptor (kinds, tag stacks, mandatory components, every scalar and size predicate, one CHOICE alternative), the encoder of the same '
+         'family must accept it, and decoding that re-encoding must give the same abstract value.',
+    note='Trusts: the well-typedness evaluator works from the descriptor\'s plain data, never from pyasn1 constraint objects; open types are '
+         'excluded; REALs are compared as normalised triples (base 10 to 15 significant digits). Open findings F15 F16 F19 F2b F22 F23 (CER/DER '
+         'encoder-side and ANY-validation defects of unclaimed properties that surface through the re-encoding oracle) are classified by shape '
+         'plus a differential re-run under BER.',
+    technique='deterministic simulation: seeded stored-byte corruption faults and arrival schedules; "may fail, must never return wrong data" oracle against an independent type evaluator plus re-encode fixpoint'),
 }
 
 
